@@ -8,6 +8,7 @@ import (
 	"context"
 	"errors"
 	"fmt"
+	"regexp"
 	"runtime"
 	"strings"
 	"time"
@@ -59,9 +60,11 @@ func addPrivateMemory(m *wb.Module, mod int) {
 	}
 }
 
-// valueBody: counter++ ; return val + 1000*counter + (sum(cells) ^ expected)
+// valueBody(mode): mode != 0 => unreachable (trap probe, before anything is written);
+// otherwise counter++ ; return val + 1000*counter + (sum(cells) ^ expected)
 func valueBody(mod int, val int32) []byte {
 	a := &wb.Asm{}
+	a.LocalGet(0).If(wb.Void).Unreachable().End()
 	a.I32Const(0).I32Const(0).Mem(0x28, 2, counterOff).I32Const(1).Op(0x6a).Mem(0x36, 2, counterOff)
 	a.I32Const(0).Mem(0x28, 2, counterOff).I32Const(1000).Op(0x6c).I32Const(val).Op(0x6a)
 	var exp uint32
@@ -78,44 +81,45 @@ func valueBody(mod int, val int32) []byte {
 
 // slotOrZero emits: table[tbl][0] is null ? 0 : call_indirect table[tbl][0]
 func slotOrZero(a *wb.Asm, t0, tbl uint32) *wb.Asm {
-	return a.I32Const(0).TableGet(tbl).RefIsNull().If(wb.I32).I32Const(0).Else().I32Const(0).CallIndirect(t0, tbl).End()
+	return a.I32Const(0).TableGet(tbl).RefIsNull().If(wb.I32).I32Const(0).Else().I32Const(0).I32Const(0).CallIndirect(t0, tbl).End()
 }
 
 func buildA() []byte {
 	m := &wb.Module{}
 	hook := m.ImportFunc("env", "hook", i32, nil)
-	t0 := m.Type(nil, i32)
+	t0 := m.Type(i32, i32)
 	m.Tables = []wb.Table{{Elem: wb.FuncRef, Lim: wb.Limits{Min: 2, Max: 2, HasMax: true}}}
 	glob := m.AddGlobal(wb.FuncRef, true, wb.CRefNull(wb.FuncRef))
 	addPrivateMemory(m, mA)
-	g := m.AddFunc(nil, i32, nil, valueBody(mA, valA))
+	g := m.AddFunc(i32, i32, nil, valueBody(mA, valA))
 	m.ExportFunc("g", g)
 	m.ExportFunc("getref", m.AddFunc(nil, fref, nil, (&wb.Asm{}).RefFunc(g).B))
 	m.ExportFunc("put_t", m.AddFunc(fref, nil, nil, (&wb.Asm{}).I32Const(0).LocalGet(0).TableSet(0).B))
 	m.ExportFunc("put_g", m.AddFunc(fref, nil, nil, (&wb.Asm{}).LocalGet(0).GlobalSet(glob).B))
 	m.ExportFunc("self_t", m.AddFunc(nil, nil, nil, (&wb.Asm{}).I32Const(0).RefFunc(g).TableSet(0).B))
-	m.ExportFunc("call_t", m.AddFunc(nil, i32, nil, (&wb.Asm{}).I32Const(0).CallIndirect(t0, 0).B))
-	m.ExportFunc("call_glob", m.AddFunc(nil, i32, nil, (&wb.Asm{}).I32Const(1).GlobalGet(glob).TableSet(0).I32Const(1).CallIndirect(t0, 0).B))
-	re := (&wb.Asm{}).LocalGet(0).Call(hook).Call(g)
+	m.ExportFunc("call_t", m.AddFunc(i32, i32, nil, (&wb.Asm{}).LocalGet(0).I32Const(0).CallIndirect(t0, 0).B))
+	m.ExportFunc("call_glob", m.AddFunc(i32, i32, nil, (&wb.Asm{}).I32Const(1).GlobalGet(glob).TableSet(0).LocalGet(0).I32Const(1).CallIndirect(t0, 0).B))
+	re := (&wb.Asm{}).LocalGet(0).Call(hook).I32Const(0).Call(g)
 	slotOrZero(re, t0, 0).I32Const(1000).Op(0x6c).Op(0x6a)
 	m.ExportFunc("reenter", m.AddFunc(i32, i32, nil, re.B))
 	m.Exports = append(m.Exports, wb.Export{Name: "tab", Kind: wb.KindTable, Idx: 0})
 	m.Elems = []wb.Elem{{Mode: 2, Funcs: []uint32{g}}}
+	nameExports(m)
 	return m.Encode()
 }
 
 func buildB() []byte {
 	m := &wb.Module{}
 	hook := m.ImportFunc("env", "hook", i32, nil)
-	impG := m.ImportFunc("A", "g", nil, i32)
+	impG := m.ImportFunc("A", "g", i32, i32)
 	m.Imports = append(m.Imports, wb.Import{Module: "A", Name: "tab", Kind: wb.KindTable, Table: wb.Table{Elem: wb.FuncRef, Lim: wb.Limits{Min: 2}}})
-	t0 := m.Type(nil, i32)
+	t0 := m.Type(i32, i32)
 	m.Tables = []wb.Table{{Elem: wb.FuncRef, Lim: wb.Limits{Min: 2, Max: 2, HasMax: true}}} // table index 1 (private)
 	glob := m.AddGlobal(wb.FuncRef, true, wb.CRefNull(wb.FuncRef))
 	addPrivateMemory(m, mB)
-	k := m.AddFunc(nil, i32, nil, valueBody(mB, valB))
+	k := m.AddFunc(i32, i32, nil, valueBody(mB, valB))
 	m.ExportFunc("k", k)
-	m.ExportFunc("call_g", m.AddFunc(nil, i32, nil, (&wb.Asm{}).Call(impG).B))
+	m.ExportFunc("call_g", m.AddFunc(i32, i32, nil, (&wb.Asm{}).LocalGet(0).Call(impG).B))
 	m.ExportFunc("getref", m.AddFunc(nil, fref, nil, (&wb.Asm{}).RefFunc(k).B))
 	m.ExportFunc("getref_imp", m.AddFunc(nil, fref, nil, (&wb.Asm{}).RefFunc(impG).B))
 	m.ExportFunc("put_at_k", m.AddFunc(nil, nil, nil, (&wb.Asm{}).I32Const(0).RefFunc(k).TableSet(0).B))
@@ -124,32 +128,34 @@ func buildB() []byte {
 	m.ExportFunc("put_g_imp", m.AddFunc(nil, nil, nil, (&wb.Asm{}).RefFunc(impG).GlobalSet(glob).B))
 	m.ExportFunc("put_pt", m.AddFunc(fref, nil, nil, (&wb.Asm{}).I32Const(0).LocalGet(0).TableSet(1).B))
 	m.ExportFunc("put_g", m.AddFunc(fref, nil, nil, (&wb.Asm{}).LocalGet(0).GlobalSet(glob).B))
-	m.ExportFunc("call_at", m.AddFunc(nil, i32, nil, (&wb.Asm{}).I32Const(0).CallIndirect(t0, 0).B))
-	m.ExportFunc("call_pt", m.AddFunc(nil, i32, nil, (&wb.Asm{}).I32Const(0).CallIndirect(t0, 1).B))
-	m.ExportFunc("call_glob", m.AddFunc(nil, i32, nil, (&wb.Asm{}).I32Const(1).GlobalGet(glob).TableSet(1).I32Const(1).CallIndirect(t0, 1).B))
-	re := (&wb.Asm{}).LocalGet(0).Call(hook).Call(impG)
+	m.ExportFunc("call_at", m.AddFunc(i32, i32, nil, (&wb.Asm{}).LocalGet(0).I32Const(0).CallIndirect(t0, 0).B))
+	m.ExportFunc("call_pt", m.AddFunc(i32, i32, nil, (&wb.Asm{}).LocalGet(0).I32Const(0).CallIndirect(t0, 1).B))
+	m.ExportFunc("call_glob", m.AddFunc(i32, i32, nil, (&wb.Asm{}).I32Const(1).GlobalGet(glob).TableSet(1).LocalGet(0).I32Const(1).CallIndirect(t0, 1).B))
+	re := (&wb.Asm{}).LocalGet(0).Call(hook).I32Const(0).Call(impG)
 	slotOrZero(re, t0, 0).I32Const(1000).Op(0x6c).Op(0x6a)
 	slotOrZero(re, t0, 1).I32Const(1000000).Op(0x6c).Op(0x6a)
 	m.ExportFunc("reenter", m.AddFunc(i32, i32, nil, re.B))
 	m.Elems = []wb.Elem{{Mode: 2, Funcs: []uint32{impG, k}}}
+	nameExports(m)
 	return m.Encode()
 }
 
 func buildC() []byte {
 	m := &wb.Module{}
 	hook := m.ImportFunc("env", "hook", i32, nil)
-	t0 := m.Type(nil, i32)
+	t0 := m.Type(i32, i32)
 	m.Tables = []wb.Table{{Elem: wb.FuncRef, Lim: wb.Limits{Min: 2, Max: 2, HasMax: true}}}
 	addPrivateMemory(m, mC)
-	c := m.AddFunc(nil, i32, nil, valueBody(mC, valC))
+	c := m.AddFunc(i32, i32, nil, valueBody(mC, valC))
 	m.ExportFunc("c", c)
 	m.ExportFunc("getref", m.AddFunc(nil, fref, nil, (&wb.Asm{}).RefFunc(c).B))
 	m.ExportFunc("put_pt", m.AddFunc(fref, nil, nil, (&wb.Asm{}).I32Const(0).LocalGet(0).TableSet(0).B))
-	m.ExportFunc("call_pt", m.AddFunc(nil, i32, nil, (&wb.Asm{}).I32Const(0).CallIndirect(t0, 0).B))
-	re := (&wb.Asm{}).LocalGet(0).Call(hook).Call(c)
+	m.ExportFunc("call_pt", m.AddFunc(i32, i32, nil, (&wb.Asm{}).LocalGet(0).I32Const(0).CallIndirect(t0, 0).B))
+	re := (&wb.Asm{}).LocalGet(0).Call(hook).I32Const(0).Call(c)
 	slotOrZero(re, t0, 0).I32Const(1000).Op(0x6c).Op(0x6a)
 	m.ExportFunc("reenter", m.AddFunc(i32, i32, nil, re.B))
 	m.Elems = []wb.Elem{{Mode: 2, Funcs: []uint32{c}}}
+	nameExports(m)
 	return m.Encode()
 }
 
@@ -164,7 +170,8 @@ func buildD(kind, variant int) []byte {
 		exit = m.ImportFunc("env", "exit", nil, nil)
 	}
 	m.Imports = append(m.Imports, wb.Import{Module: "A", Name: "tab", Kind: wb.KindTable, Table: wb.Table{Elem: wb.FuncRef, Lim: wb.Limits{Min: 2}}})
-	d := m.AddFunc(nil, i32, nil, (&wb.Asm{}).I32Const(valD).B)
+	d := m.AddFunc(i32, i32, nil, (&wb.Asm{}).LocalGet(0).If(wb.Void).Unreachable().End().I32Const(valD).B)
+	m.FuncNames = map[uint32]string{d: "d"}
 	m.Elems = []wb.Elem{{Mode: 0, TableIdx: 0, Offset: wb.CI32(0), Funcs: []uint32{d}}}
 	switch kind {
 	case failStartTrap:
@@ -190,13 +197,40 @@ var failBins = func() (b [nFailKinds][nVias][]byte) {
 	return
 }()
 
+// nameExports gives every exported function its export name in the name section (wasm stack traces show them).
+func nameExports(m *wb.Module) {
+	m.FuncNames = map[uint32]string{}
+	for _, e := range m.Exports {
+		if e.Kind == wb.KindFunc {
+			m.FuncNames[e.Idx] = e.Name
+		}
+	}
+}
+
+// fillerBin: a module with code that nobody instantiates; it only occupies a place in the engine's bookkeeping.
+func fillerBin(n int) []byte {
+	m := &wb.Module{}
+	m.ExportFunc("f", m.AddFunc(nil, i32, nil, (&wb.Asm{}).I32Const(int32(9000+n)).B))
+	return m.Encode()
+}
+
+const nFillers = 4
+
+var fillerBins = func() (b [nFillers][]byte) {
+	for i := range b {
+		b[i] = fillerBin(i)
+	}
+	return
+}()
+
 func freshBin(n int) []byte {
 	m := &wb.Module{}
 	m.ExportFunc("v", m.AddFunc(nil, i32, nil, (&wb.Asm{}).I32Const(int32(7000+n)).B))
 	return m.Encode()
 }
 
-// probes per module: exported nullary functions returning i32.
+// probes per module: exported functions (mode i32) -> i32; every probe is called with mode 0 (value) and mode 1 (the
+// function finally reached traps: the FULL error text, wasm stack trace included, must equal the twin's).
 var probeFns = [3][]string{
 	{"g", "call_t", "call_glob"},
 	{"k", "call_g", "call_at", "call_pt", "call_glob"},
@@ -221,6 +255,7 @@ type world struct {
 	inst      [3]api.Module
 	fresh     []api.Module
 	failC     [nFailKinds]wazero.CompiledModule // kept compiled modules of D (never closed, never dropped)
+	fill      [nFillers]wazero.CompiledModule   // filler compiled modules (world under test only)
 	sentinels [][]byte                          // blocks of the size of a linear memory, allocated right after each forced collection
 	freshN    int
 	pending   int // close action the host function performs at its next invocation (-1: none)
@@ -235,8 +270,12 @@ func rtConfig(eng int) wazero.RuntimeConfig {
 	return wazero.NewRuntimeConfigInterpreter()
 }
 
-// newWorld creates runtime (+cache), the host module and compiles the needed ones of A, B, C (in this order).
-func newWorld(test bool, eng int, noCache bool, need [3]bool) *world {
+// newWorld creates runtime (+cache) and compiles, in one of two orders, the needed ones of A, B, C, the host module
+// and (world under test) the fillers:  order 0: A, B, env, F1..F4, C   order 1: C, F4..F1, env, B, A.
+// Code segments are mmap'd monotonically in a fresh process, so whichever direction the kernel uses, in both orders a
+// live module that is reachable through call_indirect from a non-importer (A or C) has the highest code address and
+// the fillers lie in the middle of wazevo's address-sorted module list.
+func newWorld(test bool, eng int, noCache bool, need [3]bool, order int) *world {
 	w := &world{test: test, eng: eng, pending: -1}
 	cfg := rtConfig(eng)
 	if !noCache {
@@ -244,27 +283,57 @@ func newWorld(test bool, eng int, noCache bool, need [3]bool) *world {
 		cfg = cfg.WithCompilationCache(w.cache)
 	}
 	w.rt = wazero.NewRuntimeWithConfig(bgctx, cfg)
-	_, err := w.rt.NewHostModuleBuilder("env").NewFunctionBuilder().
-		WithGoFunction(api.GoFunc(func(ctx context.Context, stack []uint64) { w.hook() }), []api.ValueType{api.ValueTypeI32}, nil).
-		Export("hook").NewFunctionBuilder().
-		// what wasi proc_exit does: close the calling module with an exit code, then unwind with sys.ExitError.
-		// Module behaviour, not a history operation: the twin does the same.
-		WithGoModuleFunction(api.GoModuleFunc(func(ctx context.Context, mod api.Module, stack []uint64) {
-			_ = mod.CloseWithExitCode(ctx, 3)
-			panic(sys.NewExitError(3))
-		}), nil, nil).
-		Export("exit").Instantiate(bgctx)
-	if err != nil {
-		fw.Fatalf("host module: %v", err)
-	}
-	for x := 0; x < 3; x++ {
+	compile := func(x int) {
 		if !need[x] {
-			continue
+			return
 		}
-		w.comp[x], err = w.rt.CompileModule(bgctx, bins[x])
-		if err != nil {
+		var err error
+		if w.comp[x], err = w.rt.CompileModule(bgctx, bins[x]); err != nil {
 			fw.Fatalf("compile %s: %v", modNames[x], err)
 		}
+	}
+	env := func() {
+		_, err := w.rt.NewHostModuleBuilder("env").NewFunctionBuilder().
+			WithGoFunction(api.GoFunc(func(ctx context.Context, stack []uint64) { w.hook() }), []api.ValueType{api.ValueTypeI32}, nil).
+			Export("hook").NewFunctionBuilder().
+			// what wasi proc_exit does: close the calling module with an exit code, then unwind with sys.ExitError.
+			// Module behaviour, not a history operation: the twin does the same.
+			WithGoModuleFunction(api.GoModuleFunc(func(ctx context.Context, mod api.Module, stack []uint64) {
+				_ = mod.CloseWithExitCode(ctx, 3)
+				panic(sys.NewExitError(3))
+			}), nil, nil).
+			Export("exit").Instantiate(bgctx)
+		if err != nil {
+			fw.Fatalf("host module: %v", err)
+		}
+	}
+	fillers := func(rev bool) {
+		if !test {
+			return
+		}
+		for k := 0; k < nFillers; k++ {
+			i := k
+			if rev {
+				i = nFillers - 1 - k
+			}
+			var err error
+			if w.fill[i], err = w.rt.CompileModule(bgctx, fillerBins[i]); err != nil {
+				fw.Fatalf("compile filler %d: %v", i, err)
+			}
+		}
+	}
+	if order == 0 {
+		compile(mA)
+		compile(mB)
+		env()
+		fillers(false)
+		compile(mC)
+	} else {
+		compile(mC)
+		fillers(true)
+		env()
+		compile(mB)
+		compile(mA)
 	}
 	return w
 }
@@ -355,6 +424,30 @@ func (w *world) call(x int, fn string, args ...uint64) (res []uint64, out string
 	return r, outcome(r, err)
 }
 
+var hexRe = regexp.MustCompile(`0x[0-9a-fA-F]+`)
+
+// probe calls an exported (mode i32) -> i32 function. For mode 1 (trap probe) a wasm trap is reported with its FULL
+// error text (wasm stack trace with module.function names; hex numbers stripped, newlines folded).
+func (w *world) probe(x int, fn string, mode uint64) (out string) {
+	defer func() {
+		if r := recover(); r != nil {
+			out = "panic:" + firstLine(fmt.Sprint(r))
+		}
+	}()
+	f := w.inst[x].ExportedFunction(fn)
+	if f == nil {
+		fw.Fatalf("no export %s.%s", modNames[x], fn)
+	}
+	r, err := f.Call(bgctx, mode)
+	out = outcome(r, err)
+	if mode != 0 && strings.HasPrefix(out, "trap:") {
+		t := hexRe.ReplaceAllString(err.Error(), "0x?")
+		t = strings.ReplaceAll(strings.ReplaceAll(t, "\n\t", " | "), "\n", " | ")
+		out = "T:" + t
+	}
+	return out
+}
+
 // do executes one operation. It returns the canonical outcome ("ok", "v:..", an error class).
 func (w *world) do(o op) (out string) {
 	defer func() {
@@ -406,6 +499,11 @@ func (w *world) do(o op) (out string) {
 	case kGC:
 		w.collect()
 		return "ok"
+	case kCloseFiller:
+		if w.fill[o.X] == nil {
+			return "ok" // the twin has no fillers
+		}
+		return errOut(w.fill[o.X].Close(bgctx))
 	case kReenter:
 		w.pending, w.pendX, w.hookRan = o.A, o.X, false
 		_, out := w.call(o.X, "reenter", uint64(o.A))
